@@ -18,8 +18,8 @@ Definition rep_scalar (k : scalar_kind) (v : pval) : Prop :=
   | KInt64, VInt z => (-9223372036854775808 <= z <= 9223372036854775807)%Z
   | KUint32, VInt z => (0 <= z <= 4294967295)%Z
   | KUint64, VInt z => (0 <= z <= 18446744073709551615)%Z
-  | KFloat32, VFloat b => float_finite true b = true
-  | KFloat64, VFloat b => float_finite false b = true
+  | KFloat32, VFloat b => b < 4294967296 /\ float_finite true b = true
+  | KFloat64, VFloat b => b < 18446744073709551616 /\ float_finite false b = true
   | KBool, VBool _ => True
   | KString, VStr s | KKey, VStr s => valid_utf8 s = true
   | KBytes, VBytes s => Forall is_byte s
@@ -34,7 +34,8 @@ Definition rep_scalar (k : scalar_kind) (v : pval) : Prop :=
 (* what the decoded value is allowed to differ in: the decimal text is normalised *)
 Definition scalar_equiv (k : scalar_kind) (v v' : pval) : Prop :=
   match k with
-  | KDecimal => exists s s', v = VMsg [(1, VStr s)] /\ dec_normalise s = Some s' /\ v' = mk_decimal s'
+  | KDecimal => exists s s', v = VMsg [(1, VStr s)] /\ dec_normalise s = Some s' /\ v' = mk_decimal s' /\
+                            exists a b, dec_parse s = Some a /\ dec_parse s' = Some b /\ dec_eq a b
   | _ => v' = v
   end.
 
@@ -55,7 +56,8 @@ Section ScalarRT.
 
   (* the assumed law of strconv (exercised on every run against the real functions) *)
   Definition float_roundtrip : Prop :=
-    forall is32 bits, float_finite is32 bits = true -> parse_float is32 (fmt_float is32 bits) = Some bits.
+    forall (is32 : bool) (bits : N), bits < (if is32 then 4294967296 else 18446744073709551616) ->
+      float_finite is32 bits = true -> parse_float is32 (fmt_float is32 bits) = Some bits.
   (* time.Parse(time.RFC3339, _) begins with the fast path modelled by parse_rfc3339 *)
   Definition time_parse_extends : Prop :=
     forall s r, parse_rfc3339 s = Some r -> parse_time s = Some r.
@@ -139,12 +141,12 @@ Section ScalarRT.
               is_container J = false /\ J <> JNull /\
               exists v', dec_scalar KFloat32 J = Ok (Some v') /\ scalar_equiv KFloat32 v v'.
   Proof.
-    intros Hr. destruct v; cbn [rep_scalar] in Hr; try contradiction.
+    intros Hr. destruct v; cbn [rep_scalar] in Hr; try contradiction. destruct Hr as [Hbits Hr].
     exists (JNum (fmt_float true bits)).
       split. { eexists. split; [reflexivity|]. cbn [print]. unfold enc_float, float_is_nan, float_is_inf.
                unfold float_finite in Hr. destruct (float_exp_all_ones true bits); [discriminate|]. reflexivity. }
       split; [cbn [wfb]; apply Hfloat_ok; exact Hr|]. split; [reflexivity|]. split; [discriminate|].
-      exists (VFloat bits). split; [|reflexivity]. cbn [CodecEncDec.dec_scalar dec_float]. rewrite Hfloat_rt by exact Hr. reflexivity.
+      exists (VFloat bits). split; [|reflexivity]. cbn [CodecEncDec.dec_scalar dec_float]. rewrite Hfloat_rt by assumption. reflexivity.
   Qed.
 
   Lemma scalar_rt_KFloat64 v : rep_scalar KFloat64 v ->
@@ -152,12 +154,12 @@ Section ScalarRT.
               is_container J = false /\ J <> JNull /\
               exists v', dec_scalar KFloat64 J = Ok (Some v') /\ scalar_equiv KFloat64 v v'.
   Proof.
-    intros Hr. destruct v; cbn [rep_scalar] in Hr; try contradiction.
+    intros Hr. destruct v; cbn [rep_scalar] in Hr; try contradiction. destruct Hr as [Hbits Hr].
     exists (JNum (fmt_float false bits)).
       split. { eexists. split; [reflexivity|]. cbn [print]. unfold enc_float, float_is_nan, float_is_inf.
                unfold float_finite in Hr. destruct (float_exp_all_ones false bits); [discriminate|]. reflexivity. }
       split; [cbn [wfb]; apply Hfloat_ok; exact Hr|]. split; [reflexivity|]. split; [discriminate|].
-      exists (VFloat bits). split; [|reflexivity]. cbn [CodecEncDec.dec_scalar dec_float]. rewrite Hfloat_rt by exact Hr. reflexivity.
+      exists (VFloat bits). split; [|reflexivity]. cbn [CodecEncDec.dec_scalar dec_float]. rewrite Hfloat_rt by assumption. reflexivity.
   Qed.
 
   Lemma scalar_rt_KBool v : rep_scalar KBool v ->
@@ -265,7 +267,7 @@ Section ScalarRT.
       exists (JStr s). split; [eexists; split; [cbn [CodecEnc.enc_scalar]; unfold field_bytes; cbn [msg_get N.eqb Pos.eqb obind]; rewrite escape_spec, Hv; reflexivity|reflexivity]|].
       split; [exact Hv|]. split; [reflexivity|]. split; [discriminate|].
       exists (mk_decimal s'). split; [cbn [CodecEncDec.dec_scalar]; rewrite Hn; reflexivity|].
-      exists s, s'. repeat split; assumption.
+      exists s, s'. split; [reflexivity|]. split; [exact Hn|]. split; [reflexivity|]. apply dec_normalise_numeric. exact Hn.
   Qed.
 
   Lemma dec_scalar_ts s : dec_scalar KTimestamp (JStr s) =
@@ -323,6 +325,20 @@ Section ScalarRT.
                  apply scalar_rt_KTimestamp].
   Qed.
 End ScalarRT.
+
+(* what the structural proof needs from a scalar decoding layer [dsc]: every representable scalar
+   is printed as a token that [dsc] reads back to an equivalent value *)
+Definition scalar_rt_ok (fmt_float : bool -> N -> bytes)
+           (dsc : scalar_kind -> jvalue -> outcome (option pval)) : Prop :=
+  forall k v, rep_scalar k v ->
+    exists J, (exists txt, enc_scalar fmt_float k v = Ok txt /\ txt = print J) /\ wfb J = true /\
+              is_container J = false /\ J <> JNull /\
+              exists v', dsc k J = Ok (Some v') /\ scalar_equiv k v v'.
+
+Lemma scalar_rt_own fmt_float parse_float parse_time :
+  float_text_ok fmt_float -> float_roundtrip fmt_float parse_float -> time_parse_extends parse_time ->
+  scalar_rt_ok fmt_float (dec_scalar parse_float parse_time).
+Proof. intros H1 H2 H3 k v. apply scalar_roundtrip; assumption. Qed.
 
 (* ================================================================ structure *)
 (* ================================================================ message algebra *)
@@ -491,8 +507,10 @@ Definition paths_diverge (p q : list N) : Prop :=
 Section RT.
   Variable fmt_float : bool -> N -> bytes.
   Variable any_inner : bytes -> bytes -> outcome bytes.
-  Variable parse_float : bool -> bytes -> option N.
-  Variable parse_time : bytes -> option (Z * Z).
+  Variable dsc : scalar_kind -> jvalue -> outcome (option pval).
+  Variable raw : jvalue -> bytes.
+  Hypothesis Hraw_ne : forall j, wfb j = true -> raw j <> [].
+  Variable mapchk : bool.
   Variable env : env.
 
   (* the properties whose proto path addresses a field: an exposed oneof stands for its members *)
@@ -514,7 +532,11 @@ Section RT.
     po_diverge : forall l1 l2, In l1 (leaves ps) -> In l2 (leaves ps) -> l1 <> l2 ->
                  paths_diverge (p_path l1) (p_path l2);
     po_siblings : forall l a n s, In l (leaves ps) -> p_path l = a ++ [n] -> In s (p_siblings l) ->
-                  s <> n /\ exists l2, In l2 (leaves ps) /\ p_path l2 = a ++ [s]
+                  s <> n /\ exists l2, In l2 (leaves ps) /\ p_path l2 = a ++ [s];
+    po_exposed : forall p, In p ps -> p_path p = [] ->
+                 exists r qs, p_ty p = FOneof r /\ lookup env r = Some (SOneof qs);
+    po_utf8 : forall p, In p ps -> valid_utf8 (p_json p) = true;
+    po_utf8_leaves : forall l, In l (leaves ps) -> valid_utf8 (p_json l) = true
   }.
 
   (* the JSON text encodeAny emits for the payload of a j5 Any *)
@@ -536,22 +558,26 @@ Section RT.
   | RV_scalar k v : rep_scalar k v -> rep_value (FScalar k) v
   | RV_enum r pre opts n name :
       lookup env r = Some (SEnum pre opts) -> option_by_number opts n = Some name ->
-      option_by_name pre opts name = Some n -> rep_value (FEnum r) (VEnum n)
+      option_by_name pre opts name = Some n -> valid_utf8 name = true -> rep_value (FEnum r) (VEnum n)
   | RV_object r ps m :
       lookup env r = Some (SObject ps) -> rep_props ps m -> rep_value (FObject r) (VMsg m)
   | RV_oneof r ps m :
       lookup env r = Some (SOneof ps) -> rep_props ps m ->
+      (forall q1 q2, In q1 ps -> In q2 ps ->
+         present (p_path q1) m <> None -> present (p_path q2) m <> None -> q1 = q2) ->
       rep_value (FOneof r) (VMsg m)
   | RV_array it l :
       l <> [] -> item_ok it = true -> Forall (rep_value it) l -> rep_value (FArray it) (VList l)
   | RV_map it es :
       es <> [] -> item_ok it = true -> NoDup (map fst es) -> Forall (fun kv => rep_value it (snd kv)) es ->
+      Forall (fun kv => valid_utf8 (fst kv) = true) es ->
       rep_value (FMap it) (VMap es)
   | RV_any m :
       (* a j5 Any: the type name is text, the payload is JSON text that the encoder can produce *)
       valid_utf8 (sfield 1 m) = true ->
       (forall n v, msg_get n m = Some v -> (n = 1 /\ exists s, v = VStr s) \/ (n = 2 /\ exists s, v = VBytes s) \/ (n = 3 /\ exists s, v = VBytes s)) ->
       (forall s, msg_get 3 m = Some (VBytes s) -> compact_json s) ->
+      (exists t, any_text m = Ok t) ->
       rep_value (FAny false) (VMsg m)
   (* every populated leaf holds a representable value that Set keeps, no two members of one
      proto oneof are populated, at most one member of an exposed oneof *)
@@ -577,8 +603,10 @@ Section RT.
   | EV_map it es es' :
       Forall2 (fun kv kv' => fst kv = fst kv' /\ equiv_value it (snd kv) (snd kv')) es es' ->
       equiv_value (FMap it) (VMap es) (VMap es')
-  | EV_any m m' t :
-      sfield 1 m' = sfield 1 m -> any_text m = Ok t -> msg_get 3 m' = Some (VBytes t) ->
+  | EV_any m m' Jd :
+      (* same type name; the stored payload is [raw] of the JSON value the encoder embedded *)
+      sfield 1 m' = sfield 1 m -> wfb Jd = true -> any_text m = Ok (print Jd) ->
+      msg_get 3 m' = Some (VBytes (raw Jd)) ->
       equiv_value (FAny false) (VMsg m) (VMsg m')
   (* equal property by property: hence an empty flattened sub-message and an absent one agree *)
   with equiv_props : list property -> msg -> msg -> Prop :=
@@ -677,13 +705,13 @@ Section RT.
   Qed.
 
   (* ---------------------------------------------------------------- one step of each decoder function *)
-  Notation dec_scalar := (dec_scalar parse_float parse_time).
-  Notation dec_value := (dec_value parse_float parse_time env).
-  Notation dec_member := (dec_member parse_float parse_time env).
-  Notation dec_members := (dec_members parse_float parse_time env).
-  Notation dec_oneof := (dec_oneof parse_float parse_time env).
-  Notation dec_items := (dec_items parse_float parse_time env).
-  Notation dec_entries := (dec_entries parse_float parse_time env).
+  Notation dec_scalar := dsc.
+  Notation dec_value := (dec_value dsc raw mapchk env).
+  Notation dec_member := (dec_member dsc raw mapchk env).
+  Notation dec_members := (dec_members dsc raw mapchk env).
+  Notation dec_oneof := (dec_oneof dsc raw mapchk env).
+  Notation dec_items := (dec_items dsc raw mapchk env).
+  Notation dec_entries := (dec_entries dsc raw mapchk env).
 
   Lemma dec_member_S f d p j m seen :
     dec_member (S f) d p j m seen =
@@ -800,7 +828,7 @@ Section RT.
                   | _, None => Err "no value found in Any"
                   | Some tn, Some v =>
                       if pb then Err "proto is required for PB Any"
-                      else Ok (msg_put n (VMsg (msg_set false [] 3 (VBytes (print v)) (msg_set false [] 1 (VStr tn) sub))) h1)
+                      else Ok (msg_put n (VMsg (msg_set false [] 3 (VBytes (raw v)) (msg_set false [] 1 (VStr tn) sub))) h1)
                   end))
           | _ => Err "unexpected token, expected {"
           end
@@ -940,11 +968,11 @@ Section RT.
 
   Lemma any_result_equiv mv tn Jv : wfb Jv = true -> tn = sfield 1 mv -> any_text mv = Ok (print Jv) ->
     equiv_value (FAny false) (VMsg mv)
-      (VMsg (msg_set false [] 3 (VBytes (print Jv)) (msg_set false [] 1 (VStr tn) []))).
+      (VMsg (msg_set false [] 3 (VBytes (raw Jv)) (msg_set false [] 1 (VStr tn) []))).
   Proof.
-    intros Hwf Htn Htxt. pose proof (print_nonempty Jv Hwf) as Hpn.
-    assert (Hk3 : kept false (VBytes (print Jv)) = true) by (cbn; destruct (print Jv); [congruence|reflexivity]).
-    apply EV_any with (t := print Jv); [|exact Htxt|apply msg_get_set_same; exact Hk3].
+    intros Hwf Htn Htxt. pose proof (Hraw_ne Jv Hwf) as Hpn.
+    assert (Hk3 : kept false (VBytes (raw Jv)) = true) by (cbn; destruct (raw Jv); [congruence|reflexivity]).
+    apply EV_any with (Jd := Jv); [|exact Hwf|exact Htxt|apply msg_get_set_same; exact Hk3].
     unfold sfield at 1. rewrite msg_get_set_other by (exact Hk3 || lia). cbn [existsb].
     destruct tn as [|c r] eqn:Et.
     - cbn. rewrite <- Htn. reflexivity.
@@ -1021,7 +1049,7 @@ Section RT.
         exists acc', (VMsg b). split; [exact Hh|]. split; [econstructor; eassumption|]. split; assumption.
       - (* oneof wrapper held by a field *)
         destruct Hdec as (ps & ms & mv & Hlk & -> & -> & Hone). rewrite Hlk.
-        inversion Hrv as [| | |? ? ? Hlk' Hrp| | |]; subst. rewrite Hlk in Hlk'. injection Hlk' as <-.
+        inversion Hrv as [| | |? ? ? Hlk' Hrp Hamo| | |]; subst. rewrite Hlk in Hlk'. injection Hlk' as <-.
         inversion Hrp as [? ? Hokps _ _ _]; subst.
         pose proof (leaves_flat ps (Hflat _ _ Hlk)) as Hlv.
         destruct (Hone F (d + 1) ps [] []) as (b & Hb & HinvB).
@@ -1063,7 +1091,7 @@ Section RT.
         exists acc', (VMap es'). split; [exact Hh|]. split; [constructor; exact Hf2|]. split; assumption.
       - (* any *)
         destruct Hdec as (-> & ms & mv & tn & Jv & -> & -> & Ham & Htn & Htxt).
-        set (sub' := msg_set false [] 3 (VBytes (print Jv)) (msg_set false [] 1 (VStr tn) [])).
+        set (sub' := msg_set false [] 3 (VBytes (raw Jv)) (msg_set false [] 1 (VStr tn) [])).
         destruct (setter_fresh_msg (p_siblings l) n sub' (hole a acc) Hfresh) as [Hmut Hset].
         assert (Hk : (fun n0 h => let '(sub, h1) := msg_mutable (p_siblings l) n0 h in
                        obind (any_members ms None None) (fun vt =>
@@ -1072,7 +1100,7 @@ Section RT.
                          | _, None => Err "no value found in Any"
                          | Some tn0, Some v0 =>
                              if false then Err "proto is required for PB Any"
-                             else Ok (msg_put n0 (VMsg (msg_set false [] 3 (VBytes (print v0)) (msg_set false [] 1 (VStr tn0) sub))) h1)
+                             else Ok (msg_put n0 (VMsg (msg_set false [] 3 (VBytes (raw v0)) (msg_set false [] 1 (VStr tn0) sub))) h1)
                          end))
                      n (hole a acc) = Ok (msg_put n (VMsg sub') (msg_put n (VMsg []) (msg_clear_all (p_siblings l) (hole a acc)))))
           by (cbv beta; rewrite Hmut, Ham; reflexivity).
@@ -1195,6 +1223,7 @@ Section RT.
           match it with
           | FScalar k =>
               if mem_b key seen then Err "key already exists in map"
+              else if mapchk && (match map_get key acc with Some _ => true | None => false end) then Err "key already exists in map"
               else if is_container j then Err "unexpected token, expected scalar"
               else obind (dec_scalar k j) (fun v =>
                      match v with
@@ -1202,7 +1231,8 @@ Section RT.
                      | Some x => dec_entries f d it r (map_set key x acc) (key :: seen)
                      end)
           | FEnum ref =>
-              if mem_b key seen then Err "key already exists in map" else
+              if mem_b key seen then Err "key already exists in map"
+              else if mapchk && (match map_get key acc with Some _ => true | None => false end) then Err "key already exists in map" else
               match j, lookup env ref with
               | JStr s, Some (SEnum prefix opts) =>
                   match option_by_name prefix opts s with
@@ -1280,7 +1310,7 @@ Section RT.
         destruct (IH F d (acc ++ [VMsg b])) as (l' & Hl' & Hf); [lia|exact Hd'|].
         exists (VMsg b :: l'). rewrite Hl', <- app_assoc. split; [reflexivity|]. constructor; [econstructor; eassumption|exact Hf].
       + destruct Hdec as (ps & ms & mv & Hlk & -> & -> & Hone). rewrite Hlk.
-        inversion Hrv as [| | |? ? ? Hlk' Hrp| | |]; subst. rewrite Hlk in Hlk'. injection Hlk' as <-.
+        inversion Hrv as [| | |? ? ? Hlk' Hrp Hamo| | |]; subst. rewrite Hlk in Hlk'. injection Hlk' as <-.
         destruct (oneof_fresh r ps mv ms F d Hlk Hrp Hone) as (b & Hb & Heq).
         { rewrite jsize_obj in HF. lia. } { unfold depth_ok in *. rewrite jnest_obj in Hd. lia. }
         rewrite Hb. cbn [obind].
@@ -1332,12 +1362,12 @@ Section RT.
         destruct (Hfresh k2 (or_intror Hk2)) as [Hg Hs]. split; [rewrite map_get_snoc by exact Hne; exact Hg|].
         destruct Hs2 as [->| ->]; [exact Hs|]. intros [E|Hin]; [congruence|contradiction]. }
       destruct it as [sk|r|r|r|it'|it'|pb]; try discriminate; cbn [dec_ok_value] in Hdec.
-      + destruct Hdec as (Hnc & v' & Hds & Heq & _). rewrite Hseen, Hnc, Hds. cbn [obind].
+      + destruct Hdec as (Hnc & v' & Hds & Heq & _). rewrite Hseen, Hget, andb_false_r, Hnc, Hds. cbn [obind].
         rewrite map_set_fresh by exact Hget.
         destruct (IH Hnd' F d (acc ++ [(k, v')]) (k :: seen)) as (es' & Hes' & Hf); [lia|exact Hd'|apply Hnext; right; reflexivity|].
         exists ((k, v') :: es'). rewrite Hes', <- app_assoc. split; [reflexivity|].
         constructor; [split; [reflexivity|constructor; exact Heq]|exact Hf].
-      + destruct Hdec as (pre & opts & s & z & Hlk & -> & Hbn & ->). rewrite Hseen, Hlk, Hbn.
+      + destruct Hdec as (pre & opts & s & z & Hlk & -> & Hbn & ->). rewrite Hseen, Hget, andb_false_r, Hlk, Hbn.
         rewrite map_set_fresh by exact Hget.
         destruct (IH Hnd' F d (acc ++ [(k, VEnum z)]) (k :: seen)) as (es' & Hes' & Hf); [lia|exact Hd'|apply Hnext; right; reflexivity|].
         exists ((k, VEnum z) :: es'). rewrite Hes', <- app_assoc. split; [reflexivity|].
@@ -1350,7 +1380,7 @@ Section RT.
         exists ((k, VMsg b) :: es'). rewrite Hes', <- app_assoc. split; [reflexivity|].
         constructor; [split; [reflexivity|econstructor; eassumption]|exact Hf].
       + destruct Hdec as (ps & ms' & mv & Hlk & -> & -> & Hone). rewrite Hget, Hlk.
-        inversion Hrv as [| | |? ? ? Hlk' Hrp| | |]; subst. rewrite Hlk in Hlk'. injection Hlk' as <-.
+        inversion Hrv as [| | |? ? ? Hlk' Hrp Hamo| | |]; subst. rewrite Hlk in Hlk'. injection Hlk' as <-.
         destruct (oneof_fresh r ps mv ms' F d Hlk Hrp Hone) as (b & Hb & Heq).
         { rewrite jsize_obj in HF. lia. } { unfold depth_ok in *. rewrite jnest_obj in Hd. lia. }
         rewrite Hb. cbn [obind]. rewrite map_set_fresh by exact Hget.
@@ -1360,9 +1390,7 @@ Section RT.
   Qed.
 
   (* ---------------------------------------------------------------- the induction over the encoder *)
-  Hypothesis Hfloat_ok : float_text_ok fmt_float.
-  Hypothesis Hfloat_rt : float_roundtrip fmt_float parse_float.
-  Hypothesis Htime : time_parse_extends parse_time.
+  Hypothesis Hscalar : scalar_rt_ok fmt_float dsc.
   Hypothesis Hinner : inner_ok any_inner.
 
   Notation enc_value := (enc_value fmt_float any_inner env).
@@ -1559,7 +1587,7 @@ Section RT.
   Lemma kept_scalar_equiv k v v' e : scalar_equiv k v v' -> kept e v = true -> kept e v' = true.
   Proof.
     unfold scalar_equiv. destruct k; try (intros ->; auto).
-    intros (s & s' & -> & _ & ->) _. unfold mk_decimal, wkt_fields. cbn. destruct e; reflexivity.
+    intros (s & s' & -> & _ & -> & _) _. unfold mk_decimal, wkt_fields. cbn. destruct e; reflexivity.
   Qed.
 
   Lemma T_all : forall f, T_value f /\ T_object f /\ T_oneof f.
@@ -1603,14 +1631,14 @@ Section RT.
     intros t v txt H Hrv. rewrite enc_value_S in H. destruct t as [k|r|r|r|it|it|pb].
     - (* scalar *)
       inversion Hrv as [? ? Hrs| | | | | |]; subst.
-      destruct (scalar_roundtrip fmt_float parse_float parse_time Hfloat_ok Hfloat_rt Htime k v Hrs)
+      destruct (Hscalar k v Hrs)
         as (J & (txt0 & He & ->) & Hw & Hnc & HJ & v' & Hds & Heq).
       rewrite He in H. injection H as <-.
       exists J. split; [reflexivity|]. split; [exact Hw|]. split; [exact HJ|].
       cbn [dec_ok_value]. split; [exact Hnc|]. exists v'. split; [exact Hds|]. split; [exact Heq|].
       intros e. apply (kept_scalar_equiv k v v' e Heq).
     - (* enum *)
-      inversion Hrv as [|? ? ? ? ? Hlk Hbn Hbnm| | | | |]; subst. rewrite Hlk, Hbn in H.
+      inversion Hrv as [|? ? ? ? ? Hlk Hbn Hbnm Hvn| | | | |]; subst. rewrite Hlk, Hbn in H.
       apply escape_ok in H as [Hv ->]. exists (JStr name). split; [reflexivity|]. split; [exact Hv|]. split; [discriminate|].
       cbn [dec_ok_value]. exists pre, opts, name, n. repeat split; assumption.
     - (* object *)
@@ -1619,7 +1647,7 @@ Section RT.
       exists (JObj ms). split; [reflexivity|]. split; [exact Hw|]. split; [discriminate|].
       cbn [dec_ok_value]. exists ps, ms, m. repeat split; assumption.
     - (* oneof *)
-      inversion Hrv as [| | |? ? ? Hlk Hrp| | |]; subst. rewrite Hlk in H.
+      inversion Hrv as [| | |? ? ? Hlk Hrp Hamo| | |]; subst. rewrite Hlk in H.
       inversion Hrp as [? ? Hokps Hvals _ _]; subst.
       pose proof (leaves_flat ps (Hflat _ _ Hlk)) as Hlv.
       destruct (TOn f ltac:(lia) r ps m txt Hlk H) as (ms & -> & Hw & Hd).
@@ -1644,12 +1672,12 @@ Section RT.
       exists l'. split; [exact Hl'|]. split; [exact Hf|].
       intros ->. inversion Hf; subst. congruence.
     - (* map *)
-      inversion Hrv as [| | | | |? ? Hne Hit Hnd Hall|]; subst.
+      inversion Hrv as [| | | | |? ? Hne Hit Hnd Hall Hku|]; subst.
       apply omap_ok in H as (xs & Hxs & ->).
       assert (Hel : exists ms, xs = map member_text ms /\
                 forallb (fun kv => valid_utf8 (fst kv) && wfb (snd kv)) ms = true /\
                 Forall2 (fun kv km => fst kv = fst km /\ elem_ok it (snd kv) (snd km)) es ms).
-      { clear Hne Hnd Hrv. revert xs Hxs. induction Hall as [|[k x] r Hx Hr IH]; intros xs Hxs; cbn [map sequence] in Hxs.
+      { clear Hne Hnd Hrv Hku. revert xs Hxs. induction Hall as [|[k x] r Hx Hr IH]; intros xs Hxs; cbn [map sequence] in Hxs.
         - injection Hxs as <-. exists []. repeat split; constructor.
         - apply obind_ok in Hxs as (b & Hb & Hxs). apply omap_ok in Hxs as (ys & Hys & ->).
           cbn [fst snd] in *. apply obind_ok in Hb as (lb & Hlb & Hb). apply omap_ok in Hb as (b' & Hb' & ->).
@@ -1667,10 +1695,10 @@ Section RT.
       intros F d HF Hd. destruct (entries_rt it Hit es ms Hf2 Hndm F d [] [] HF Hd) as (es' & Hes' & Hf).
       { intros k _. split; [reflexivity|intros []]. }
       exists es'. split; [exact Hes'|]. split; [exact Hf|].
-      intros ->. inversion Hf; subst. congruence.
+      intros ->. inversion Hf as [|? ? ? ? ? ? E1 E2]; subst. apply Hne. reflexivity.
     - (* any *)
       destruct v as [| | | | | |m| |]; try discriminate.
-      inversion Hrv as [| | | | | |? Hvt Hshape Hraw]; subst.
+      inversion Hrv as [| | | | | |? Hvt Hshape Hraw Hat]; subst.
       unfold enc_any in H.
       apply obind_ok in H as (tn0 & Htn & H). apply obind_ok in H as (data & Hdata & H).
       apply obind_ok in H as (l1 & Hl1 & H). apply obind_ok in H as (t & Ht & H).
@@ -1695,7 +1723,11 @@ Section RT.
   (* ---------------------------------------------------------------- the codec round trip *)
   Definition rep_root (root : bytes) (m : msg) : Prop :=
     match lookup env root with
-    | Some (SObject ps) | Some (SOneof ps) => rep_props ps m
+    | Some (SObject ps) => rep_props ps m
+    | Some (SOneof ps) =>
+        rep_props ps m /\
+        (forall q1 q2, In q1 ps -> In q2 ps ->
+           present (p_path q1) m <> None -> present (p_path q2) m <> None -> q1 = q2)
     | _ => False
     end.
   Definition equiv_root (root : bytes) (m m' : msg) : Prop :=
@@ -1708,7 +1740,7 @@ Section RT.
     rep_root root m -> encode fmt_float any_inner env root m = Ok txt ->
     exists J, strict_parse txt = Some J /\
       (N.of_nat (jnest J) <= max_nesting ->
-       exists m', decode_tree parse_float parse_time env root J = Ok m' /\ equiv_root root m m').
+       exists m', decode_tree dsc raw mapchk env root J = Ok m' /\ equiv_root root m m').
   Proof.
     unfold rep_root, equiv_root, encode, encode_fuel, decode_tree, decode_tree_fuel. intros Hrep H.
     set (f := (4 * pval_depth (VMsg m) + 4)%nat) in *. destruct (T_all f) as (_ & TOb & TOn).
@@ -1718,7 +1750,7 @@ Section RT.
       destruct (Hd (3 * jsize (JObj ms) + 3)%nat 0) as (b & Hb & Heq).
       { rewrite jsize_obj. lia. } { unfold depth_ok. lia. }
       exists b. split; assumption.
-    - inversion Hrep as [? ? Hok Hvals _ _]; subst.
+    - destruct Hrep as [Hrep _]. inversion Hrep as [? ? Hok Hvals _ _]; subst.
       pose proof (leaves_flat ps (Hflat _ _ Elk)) as Hlv.
       destruct (TOn root ps m txt Elk H) as (ms & -> & Hw & Hd).
       { intros q w Hq Hw. apply (Hvals q w); [rewrite Hlv; exact Hq|exact Hw]. }
@@ -1773,11 +1805,20 @@ Section RT.
     nodup_b bytes_eqb (map p_json ps) && nodup_b prop_eqb L &&
     forallb (fun l => match p_path l with [] => false | _ => true end) L &&
     forallb (fun l1 => forallb (fun l2 => prop_eqb l1 l2 || diverge_b (p_path l1) (p_path l2)) L) L &&
-    forallb (siblings_ok_b L) L.
+    forallb (siblings_ok_b L) L &&
+    forallb (fun p => match p_path p with
+                      | [] => match p_ty p with
+                              | FOneof r => match lookup env r with Some (SOneof _) => true | _ => false end
+                              | _ => false
+                              end
+                      | _ => true
+                      end) ps &&
+    forallb (fun p => valid_utf8 (p_json p)) ps && forallb (fun l => valid_utf8 (p_json l)) L.
 
   Lemma props_ok_b_sound ps : props_ok_b ps = true -> props_ok ps.
   Proof.
     unfold props_ok_b. intros H.
+    apply andb_true_iff in H as [H Hul]. apply andb_true_iff in H as [H Hu]. apply andb_true_iff in H as [H Hexp].
     apply andb_true_iff in H as [H Hs]. apply andb_true_iff in H as [H Hd].
     apply andb_true_iff in H as [H Hp]. apply andb_true_iff in H as [Hn Hnd].
     constructor.
@@ -1793,6 +1834,11 @@ Section RT.
       split; [apply negb_true_iff in Hne; lia|].
       apply existsb_exists in Hex as (l2 & Hl2 & He). exists l2. split; [exact Hl2|].
       unfold path_eqb in He. destruct (list_eq_dec N.eq_dec (p_path l2) (a ++ [s])); [assumption|discriminate].
+    - intros p0 Hp0 Hpath. rewrite forallb_forall in Hexp. specialize (Hexp p0 Hp0). rewrite Hpath in Hexp.
+      destruct (p_ty p0) as [| | |r| | |]; try discriminate. destruct (lookup env r) as [[|qs|]|] eqn:El; try discriminate.
+      exists r, qs. split; [reflexivity|exact El].
+    - intros p0 Hp0. rewrite forallb_forall in Hu. apply Hu. exact Hp0.
+    - intros l Hl. rewrite forallb_forall in Hul. apply Hul. exact Hl.
   Qed.
 
 End RT.
@@ -1830,4 +1876,34 @@ Proof.
   intros H name ps Hlk. rewrite forallb_forall in H. destruct (lookup_in _ _ _ Hlk) as (n' & Hin).
   specialize (H _ Hin). cbn [snd] in H. apply Forall_forall. intros p Hp. rewrite forallb_forall in H.
   specialize (H p Hp). destruct (p_path p); [discriminate|discriminate].
+Qed.
+
+(* the premises about strconv and time.Parse are jointly satisfiable *)
+Definition inst_fmt (is32 : bool) (bits : N) : bytes := print_Z (Z.of_N bits).
+Definition inst_parse_float (is32 : bool) (s : bytes) : option N := parse_N s.
+Lemma premises_satisfiable :
+  float_text_ok inst_fmt /\ float_roundtrip inst_fmt inst_parse_float /\ time_parse_extends parse_rfc3339.
+Proof.
+  split; [intros is32 bits _; apply print_Z_valid_number|].
+  split; [|intros s r H; exact H].
+  intros is32 bits _ _. unfold inst_fmt, inst_parse_float. rewrite parse_N_print_nat by lia. rewrite N2Z.id. reflexivity.
+Qed.
+
+(* arrays and maps hold scalars, enums, objects or oneofs (what the reflector builds); the decoder
+   family's model refuses other element types before looking at the elements *)
+Definition ty_ok (t : field_ty) : bool :=
+  match t with FArray it | FMap it => item_ok it | _ => true end.
+Definition env_items_ok (e : env) : Prop :=
+  forall r ps, lookup e r = Some (SObject ps) \/ lookup e r = Some (SOneof ps) ->
+    forall p, In p ps -> ty_ok (p_ty p) = true.
+Definition env_items_ok_b (e : env) : bool :=
+  forallb (fun ns => match snd ns with
+                     | SObject ps | SOneof ps => forallb (fun p => ty_ok (p_ty p)) ps
+                     | SEnum _ _ => true
+                     end) e.
+Lemma env_items_ok_b_sound e : env_items_ok_b e = true -> env_items_ok e.
+Proof.
+  intros H r ps Hlk p Hp. unfold env_items_ok_b in H. rewrite forallb_forall in H.
+  destruct Hlk as [Hlk|Hlk]; destruct (lookup_in _ _ _ Hlk) as (n' & Hin); specialize (H _ Hin); cbn [snd] in H;
+    rewrite forallb_forall in H; apply H; exact Hp.
 Qed.
